@@ -629,6 +629,21 @@ def describe_exc(exc):
   return d
 
 
+PROMISED_ATTRS = dict(MissingJsonKeyError=("missing_json_key",), InvalidTypeError=("value", "expected_type"), InvalidKeyError=("invalid_key",))
+
+
+def lacks_attrs(exc):
+  """the attributes the property promises on the object raised ("exposes the offending key", "the offending value and expected type") that
+  this object does not have; [] for any other exception.  expected_type must also be a string (it is printed into the Coq case as one)."""
+  _, E = _lib()
+  if type(exc) not in (E.MissingJsonKeyError, E.InvalidTypeError, E.InvalidKeyError):
+    return []
+  missing = [a for a in PROMISED_ATTRS[type(exc).__name__] if not hasattr(exc, a)]
+  if type(exc) is E.InvalidTypeError and not missing and not isinstance(exc.expected_type, str):
+    missing.append("expected_type (a string)")
+  return missing
+
+
 def obslit(exc):
   _, E = _lib()
   t = type(exc)
@@ -639,6 +654,8 @@ def obslit(exc):
     ne = "false"
   if t is E.SigoptValidationError:
     return f"(OSigopt {ne})"
+  if lacks_attrs(exc):
+    return "OLacksAttr"     # an error object without an attribute its class promises: an observation like any other (never a crash of the harness)
   if t is E.MissingJsonKeyError:
     return f"(OMissingKey {C.optlit(exc.missing_json_key, jlit)} {ne})"
   if t is E.InvalidTypeError:
@@ -812,7 +829,10 @@ def correspondence(ctx):
   def bump(k):
     dist[k] = dist.get(k, 0) + 1
   n3 = max(1, n // 5)     # validate calls on draft-3 schemas, appended to the n cases
-  for i in range(n + n3):
+  # ... and, after those, the enumerated type records with an EMPTY path (document root; first branch of a oneOf / anyOf at the root, under a
+  # key, under an array position): every type declaration x every kind of JSON value; drawn from no random stream
+  keyless = keyless_type_cases(thin=True)
+  for i in range(n + n3 + len(keyless)):
     if i < n and i % 5 == 4:
       e = gen_verr_obj(rng, 2)
       out = run_process(e)
@@ -825,8 +845,10 @@ def correspondence(ctx):
       bump("process_error->" + type(out).__name__)
       nt = True
     else:
-      d3 = i >= n
-      if d3:
+      d3 = n <= i < n + n3
+      if i >= n + n3:
+        schema, value = keyless[i - n - n3]["schema"], keyless[i - n - n3]["value"]
+      elif d3:
         schema, value = gen_draft3_case(rng)
       elif i % 5 == 3:
         schema, value = gen_patprops(rng)
@@ -835,9 +857,11 @@ def correspondence(ctx):
         value = gen_value(rng, schema, 3)
       v0, s0 = copy.deepcopy(value), copy.deepcopy(schema)
       exc, cause = run_validate(value, schema)
-      inp = dict(family=FAM_D3 if d3 else "random", value=v0, schema=s0)
+      inp = dict(family=FAM_D3 if d3 else "keyless-type" if i >= n + n3 else "random", value=v0, schema=s0)
       if d3:
         bump("draft3:validate-calls")
+      if i >= n + n3:
+        bump("keyless-type:validate-calls")
       if "patternProperties" in repr(schema):
         bump("schema-with-patternProperties")
       if repr(v0) != repr(value) or repr(s0) != repr(schema):
@@ -869,6 +893,12 @@ def correspondence(ctx):
             bump("draft3-required-record:next-to-other-keywords")
         if cause.context:
           bump("rejected-with-context")
+        first = cause
+        while first.validator in ("oneOf", "anyOf") and first.context:
+          first = first.context[0]
+        if first.validator == "type" and len(first.path) == 0:
+          # the record that is translated has an empty path: the keyless message form of InvalidTypeError
+          bump("type-record-with-empty-path:" + ("document-root" if first is cause else "first-branch-of-a-combinator"))
         recs = []
         pat_addl_records(cause, recs)
         for rec in recs:
@@ -900,8 +930,12 @@ def correspondence(ctx):
   for i in bad:
     dis.append(dict(what=f"C20 correspondence case {i} ({meta[i][0]}): implementation differs from Model.Schema (conforms / wf_verr / process_error)",
                     kind=meta[i][0], input=meta[i][1], observed=meta[i][2]))
-  return dict(evaluations=n + n3, distinct_nontrivial=nontriv,
-              rule="n/5 further validate calls on draft-3 schemas ($schema draft-03): objects whose properties carry `required: true / false` or no flag, "
+  return dict(evaluations=n + n3 + len(keyless), distinct_nontrivial=nontriv,
+              rule=f"{len(keyless)} enumerated validate calls whose type record has an EMPTY path (the document itself of the wrong JSON type; the first branch of a oneOf / "
+                   "anyOf at the root, under a key, under an array position): every type declaration (7 names, 3 lists) x 13 kinds of value, conforming ones "
+                   "included - the attributes of the InvalidTypeError raised are compared with the model's (an error object lacking a promised attribute "
+                   "is the observation OLacksAttr, which matches no outcome of the model); "
+                   "n/5 further validate calls on draft-3 schemas ($schema draft-03): objects whose properties carry `required: true / false` or no flag, "
                    "with properties dropped from a valid value, nested under odd keys and array items, next to type, patternProperties, additionalProperties, items, bounds, lengths, "
                    "item counts, enum, pattern, extends and annotations (values without integral floats); every raised record - the draft-3 `required` "
                    "record included - is checked against wf_verr and translated by the model; the n cases: "
@@ -1164,6 +1198,12 @@ def judge(inp):
     return fail("C20:wrong-class-for-type", f"only type errors but {type(exc).__name__} was raised", "InvalidTypeError")
   if kinds == {"additional"} and type(exc) is not E.InvalidKeyError:
     return fail("C20:wrong-class-for-additional", f"only unknown keys but {type(exc).__name__} was raised", "InvalidKeyError")
+  if lacks_attrs(exc):
+    # the exposure clauses ("the error exposes the offending key"; "for type errors the offending value and expected type"): the object raised
+    # does not even have the attribute - at any path, the document root (empty path) included
+    sig = {E.MissingJsonKeyError: "C20:required-not-exposed", E.InvalidTypeError: "C20:type-not-exposed", E.InvalidKeyError: "C20:unknown-key-not-exposed"}[type(exc)]
+    return fail(sig, f"the {type(exc).__name__} raised has no attribute {' / '.join(lacks_attrs(exc))} (its attributes: {sorted(vars(exc))})",
+                "an error object carrying " + " and ".join(PROMISED_ATTRS[type(exc).__name__]))
   if type(exc) is E.MissingJsonKeyError:
     cands = [d for k, _, d in out if k == "required"]
     if not any(exc.missing_json_key in d for d in cands):
@@ -1292,6 +1332,51 @@ def fam_paths(rng):
   return dict(family="paths", value=v, schema=s)
 
 
+# Type records with an EMPTY path: the document itself has the wrong JSON type, or the `type` of the first branch of a oneOf / anyOf fails (the
+# path of a context record is relative to its parent).  process_error then hands InvalidTypeError the key "" - the keyless form of its message.
+# Enumerated, not drawn (no use of the random stream): every type declaration x every kind of JSON value x where the declaration stands.
+KEYLESS_DECLS = TYPES + [["integer", "null"], ["array", "object"], ["string", "number", "boolean"]]
+KEYLESS_VALUES = [None, True, 0, 3, 2.5, 1.0, "s", "", [], [1, "x"], {}, {"a": 1}, 2 ** 70]
+KEYLESS_SHAPES = ("root", "root+keywords", "anyOf-first", "oneOf-first", "nested-anyOf", "items-oneOf")
+
+
+def keyless_type_case(decl, value, shape, draft=None):
+  value = copy.deepcopy(value)
+  other = {"type": "array", "minItems": 40}    # a second branch no pool value conforms to
+  if shape == "root":
+    s = {"type": decl}
+  elif shape == "root+keywords":
+    s = {"title": "t", "properties": {"a": {"type": "integer"}}, "required": ["a"], "type": decl, "minLength": 1, "minimum": 1, "minItems": 1}
+    if draft in (DRAFT3, DRAFT4):
+      del s["required"]      # a boolean inside the property sub-schema in draft 3; kept out of draft 4 too so that both read alike
+  elif shape in ("anyOf-first", "oneOf-first"):
+    s = {shape.split("-")[0]: [{"type": decl}, other]}
+  elif shape == "nested-anyOf":
+    s, value = {"type": "object", "properties": {"k": {"anyOf": [{"type": decl}, other]}}}, {"k": value}
+  else:
+    s, value = {"type": "array", "items": {"oneOf": [{"type": decl}, other]}}, [value]
+  if draft:
+    s = dict(s)
+    s["$schema"] = draft
+  return dict(family="keyless-type", value=value, schema=s)
+
+
+def keyless_type_cases(drafts=(None,), thin=False):
+  """every (declaration, value) pair at the root in every draft; in the other places every pair in the default draft, and one third of the
+  pairs (rotating) under an explicit $schema - and in the default draft too when thin"""
+  out, i = [], 0
+  for decl in KEYLESS_DECLS:
+    for value in KEYLESS_VALUES:
+      i += 1
+      for j, shape in enumerate(KEYLESS_SHAPES):
+        for draft in drafts:
+          if draft == DRAFT3 and not shape.startswith("root"):
+            continue       # draft 3 has no oneOf / anyOf (its unions are written inside `type`)
+          if not (thin or draft) or shape == "root" or (i + j) % 3 == 0:
+            out.append(keyless_type_case(decl, value, shape, draft))
+  return out
+
+
 def fam_draft4(rng):
   props = {k: rng.choice([{"type": "integer"}, {"type": "number", "minimum": 0, "exclusiveMinimum": True}, {"type": "string", "maxLength": 2},
                           {"type": "number", "maximum": 5, "exclusiveMaximum": rng.random() < 0.5}]) for k in rng.sample(KEYS, rng.randint(1, 3))}
@@ -1400,6 +1485,13 @@ def search(ctx, hints, broken):
     if isinstance(h.get("input"), dict) and "family" in h["input"]:
       run(h["input"])
   rng = ctx.rng
+  # type records with an empty path (document root; first branch of a oneOf / anyOf), drafts 2020-12 (default) / 2019-09 / 7 / 4 / 3: enumerated
+  keyless = keyless_type_cases(drafts=(None, DRAFT2019, DRAFT7, DRAFT4, DRAFT3))
+  before = len(fails)
+  for inp in keyless:
+    run(inp)
+    if len(fails) - before >= 3:
+      break
   for _ in range(3):
     run(fam_huge(rng))
   for _ in range(ctx.n(300, 5000)):
@@ -1446,3 +1538,12 @@ LEVEL_NOTE = ("jsonschema itself is trusted through a contract that is tested, n
               "repaired (corpus witness); harness and printers trusted; no axioms")
 TECHNIQUE = "Coq proof (structural induction on the error-context tree, scanner invariant) on executable model + in-Coq differential correspondence"
 DESIGN_REF = "DESIGN.md section 7, C20"
+
+# --- gap round B (seeded C20_m13): type records with an empty path; error objects lacking a promised attribute
+LEVEL_TEXT += ("; a type record with an EMPTY path - the document itself of the wrong JSON type, or the first branch of a oneOf / anyOf whose own `type` "
+               "fails - takes the keyless message form and exposes value and type all the same (C20_type_keyless_exposes_value_and_type, "
+               "C20_combinator_translates_first_context); such records are enumerated in the correspondence and in the searcher (every type declaration x "
+               "every kind of value x root / root next to other keywords / first branch of anyOf / oneOf at the root, under a key, under an array position; "
+               "drafts 2020-12, 2019-09, 7, 4, 3)")
+LEVEL_NOTE += ("; an object of a library error class that lacks an attribute its class promises (missing_json_key, value / expected_type, invalid_key) is an "
+               "observation of its own (OLacksAttr - matches no outcome of the model) and a failure of the exposure clause in the searcher, never a crash of the harness")
